@@ -2,6 +2,7 @@ import PlumpyModel.Fault.Model
 import PlumpyModel.Fault.Proof0
 import PlumpyModel.Fault.Proof6
 import PlumpyModel.Fault.Proof7
+import PlumpyModel.Fault.Proof12
 /-!
 # C03 — a failure in user code ends the process EXCEPTED, never half-transitioned
 
@@ -244,17 +245,62 @@ theorem C03_pause_play_fault_never_disturbs (P : Prog) (nf : Nat) (plan : Plan) 
   · have := hb.main; rw [hm] at this; cases this
   · exact ⟨hi, hk.tr⟩
 
-/-- The clause "the stepping task returns normally" for hook faults, as one would like to state it: after a transition-hook fault has
-fired, finitely many wake-ups end `step_until_terminated()` normally.  It is FALSE of the model — and of the code:
-`C03_witness_stepper_blocked_after_exit_hook_fault` below.  On every case of the harness the clause is decided by the op-by-op
-correspondence (field `task=`) and the monitor.  What is proved instead: nothing propagates out of the faulty `transition_to`
-(`C03_transition_with_fault`), and for faults that are not lifecycle hooks the task's program counter is `done`
-(`PMF.L.C03_raising_step_excepted`).  (The pause / play hooks are rightly absent from the statement:
-`C03_witness_superseded_pause_action_escapes`.) -/
+/-- The clause "the stepping task returns normally" for hook faults in full: after a transition-hook fault has fired, finitely many
+wake-ups end `step_until_terminated()` normally.  Before the repairs e94edb5 / a130f23 it was false (F28, F30).  Now it is PROVED for
+ten of the twelve transition hooks (`C03_stepper_returns_after_hook_fault_partial`); for `on_terminated` / `on_close` (raising before
+`super()`) it is not: these two hooks also run in the failing path of `transition_to`, where a second failure propagates (the
+alternative `Bad` of the invariant `K`), and the linking invariant is proved only for runs in which that cannot happen.  Missing for
+the full statement: that `Bad` is absorbing for the twins (terminal states final, `fired` monotone), so that the hypothesis on the
+final configuration rules `Bad` out along the whole run.  No counterexample exists among all histories of length ≤ 7 over tick / pause
+/ play / kill / fail / resume / call_soon (failing) of two programs × 8 plans × every transition hook × occurrence ≤ 2 × before / after
+(exhaustive search on the compiled model), and on every case of the harness the clause is decided by the correspondence (`task=`). -/
 def C03_stepper_returns_after_hook_fault : Prop :=
   ∀ (P : Prog) (nf : Nat) (plan : Plan) (a : Arm) (evs : List Ev), mainHK a.hk = true → afterClose a = false →
     (runX P (initX nf plan (some a)) evs).fired = true → ¬ InternalError (runX P (initX nf plan (some a)) evs) →
     ∃ n, (runF P (runX P (initX nf plan (some a)) evs) (List.replicate n .tick)).l.c.pc = .done
+
+/-- **the stepping task returns normally after a hook fault** — for every program, plan, history and every fault in
+`on_exit_running/waiting`, `on_run/wait/finish/kill`, `on_running/waiting/finished/killed` (any occurrence, before or after
+`super()`): once the fault has fired, finitely many wake-ups of the stepping task end `step_until_terminated()` normally (its program
+counter is `done`), wherever the task was suspended when the fault fired — inside a step function, on the wait of a WAITING state
+(which the failed transition still completes, repair a130f23), on the pause future (released by `on_terminated`) — and whatever was
+pending or requested.  (`_partial`: `on_terminated` / `on_close` are missing, see `C03_stepper_returns_after_hook_fault`.) -/
+theorem C03_stepper_returns_after_hook_fault_partial (P : Prog) (nf : Nat) (plan : Plan) (a : Arm) (evs : List Ev)
+    (hm : mainHK a.hk = true) (hnb : NoTC a)
+    (hf : (runX P (initX nf plan (some a)) evs).fired = true) :
+    ∃ n, (runF P (runX P (initX nf plan (some a)) evs) (List.replicate n .tick)).l.c.pc = .done := by
+  have hac : afterClose a = false := by
+    unfold afterClose
+    cases h : a.after with
+    | false => rfl
+    | true =>
+      have h1 : a.hk ≠ .onTerminated := fun h => hnb (Or.inl h)
+      have h2 : a.hk ≠ .onClose := fun h => hnb (Or.inr h)
+      simp [h1, h2]
+  have hg := C03_hook_fault_ends_excepted P nf plan a evs hm hac hf (fun h => absurd h hnb)
+  rw [runX_armed] at hg hf ⊢
+  exact stepperF_returns_run hac hnb P nf plan evs (by rw [hg.1]; exact excepted_terminal _)
+
+/-- **the exception never escapes into the stepping task, and the task is never left blocked**: for the same ten hooks, in EVERY
+configuration of the run (fired or not): the stepping task has not crashed; if it is suspended on a waiting future, the current
+state owns that future or the future is completed; if it is suspended on a pause future, that is the current one or a released one,
+and on a terminated process it is released (the linking invariant `Inv10` of C02, for runs with a fault). -/
+theorem C03_hook_fault_never_reaches_the_stepping_task (P : Prog) (nf : Nat) (plan : Plan) (a : Arm) (evs : List Ev)
+    (hac : afterClose a = false) (hnb : NoTC a) :
+    Inv10 (runX P (initX nf plan (some a)) evs).l.c := by
+  rw [runX_armed]
+  exact (runF_jf hac hnb P _ evs (initX_jf a nf plan)).old
+
+/-- **`step_until_terminated()` returns, configuration level, every hook**: from ANY terminated configuration of the model with a
+fault in which the stepping task has not crashed and is not blocked on an unreleased future, finitely many wake-ups end it normally
+(on a terminated process a wake-up consults no hook and no listener: `tickStepperF_terminal_c`). -/
+theorem C03_stepper_returns_configuration (P : Prog) (x : FCfg) (ht : terminal x.l.c.st.label = true)
+    (hcr : ∀ e, x.l.c.pc ≠ .crashed e)
+    (hpz : ∀ pf pf', x.l.c.pc = .awaitPaused pf → x.l.c.paused = some pf' → x.l.c.pfs[pf']? = some true)
+    (hap : ∀ pf, x.l.c.pc = .awaitPaused pf → x.l.c.pfs[pf]? = some true)
+    (haw : ∀ wf, x.l.c.pc = .awaitWaiting wf → ∃ w, x.l.c.wfs[wf]? = some w ∧ w ≠ .pending) :
+    ∃ n, (runF P x (List.replicate n .tick)).l.c.pc = .done :=
+  stepperF_returns P x ht hcr hpz hap haw
 
 /-- **one transition with the armed fault, every scenario** (configuration level): from ANY configuration in which the invariant
 holds and the process is live — whatever is pending or requested, inside or outside a step —, for any target state and any
@@ -358,6 +404,13 @@ example :
 example :
     let l := runL (withStepFault procC03 2 1) (initL 0 []) [.tick, .tick, .resume (some 7), .tick]
     terminal l.c.st.label = false ∧ l.c.pc = .inUser ⟨0, .raise faultExc⟩ := by decide +kernel
+
+-- non-vacuity of `C03_stepper_returns_after_hook_fault_partial`: `fail()` on the WAITING process whose `on_exit_waiting` raises
+-- (F30) — the fault fires while the stepping task is suspended on the wait of the state being left
+example : mainHK .exitWaiting = true ∧ NoTC ⟨.exitWaiting, 0, false⟩ ∧
+    (runX procC03 (initX 0 [] (some ⟨.exitWaiting, 0, false⟩)) [.tick, .tick, .tick, .fail (.user 9)]).fired = true ∧
+    (runX procC03 (initX 0 [] (some ⟨.exitWaiting, 0, false⟩)) [.tick, .tick, .tick, .fail (.user 9)]).l.c.pc = .awaitWaiting 0 :=
+  ⟨rfl, by unfold NoTC; decide, by decide +kernel, by decide +kernel⟩
 
 /-- **finding F18 on whole runs (witness)**: `on_terminated` raising AFTER `super()` in the closing transition of the last step: the
 process is EXCEPTED with the fault while its future still holds the result of the FINISHED state it had entered — the two fault points
